@@ -570,6 +570,13 @@ class Executor:
                 n = idx.i.as_long()
                 yield s, base.items[n]
                 return
+            if self.pure_depth and base.items and isinstance(idx, IVal):
+                # spec-level read with a symbolic index: If-chain over the (few) items; out of range is unspecified
+                t = to_v(base.items[-1], s)
+                for j in range(len(base.items) - 2, -1, -1):
+                    t = z3.If(idx.i == j, to_v(base.items[j], s), t)
+                yield s, Val(t, ANY)
+                return
             raise Unsupported("symbolic index into tuple literal")
         if not isinstance(base, Val):
             raise Unsupported(f"subscript on {base!r}")
